@@ -261,3 +261,65 @@ pub fn run_deadline(sim: &Sim, _idx: u64) {
         }
     }
 }
+
+/// The caller's own deadline is enforced locally even when the peer stays silent (a raw h2 server
+/// that accepts the request and never answers), with or without an endpoint timeout.
+pub fn run_deadline_silent_peer(sim: &Sim, _idx: u64) {
+    use crate::rawh2::{spawn_raw_server, RawScript, RespStep};
+    use std::sync::{Arc, Mutex};
+    let caller_ms = sim.pick(&[5u64, 50, 300, 2_000]);
+    let endpoint: Option<Duration> = match sim.draw(3) {
+        0 => None,
+        1 => Some(Duration::from_millis(caller_ms * 4)),
+        _ => Some(Duration::from_millis((caller_ms / 2).max(1))),
+    };
+    let caller = Duration::from_millis(caller_ms);
+    let d = endpoint.map(|e| e.min(caller)).unwrap_or(caller);
+    let lazy = sim.chance(1, 2);
+    let streaming = sim.chance(1, 2);
+    sim.nontrivial();
+    sim.sample(|| format!("silent peer: caller timeout {caller:?}, endpoint timeout {endpoint:?} -> D={d:?}; lazy={lazy} streaming={streaming}"));
+    sim.ev(|| format!("config: silent peer, caller {caller:?} endpoint {endpoint:?} D={d:?} lazy={lazy} streaming={streaming}"));
+    let netcfg = NetCfg { frag: sim.chance(1, 2), ..NetCfg::ideal() };
+    let res = run_sim(sim, Duration::from_secs(36_000), || async {
+        let (_net, connector, rx) = net_and_connector(sim, netcfg, vec![]);
+        // headers never come: the peer reads the request and then sleeps for 10 virtual hours
+        let script = RawScript { read_request_first: true, steps: vec![RespStep::Sleep(36_000_000_000)] };
+        spawn_raw_server(sim, rx, Arc::new(Mutex::new(vec![script])), Arc::new(Mutex::new(vec![])));
+        let ch = match connect(&ClientOpts { timeout: endpoint, lazy, ..Default::default() }, connector).await {
+            Ok(c) => c,
+            Err(e) => return Err(format!("connect failed: {e}")),
+        };
+        tokio::time::sleep(Duration::from_millis(50)).await;
+        let mut client = crate::rawsvc::raw_client::RawClient::new(ch);
+        let mut req = tonic::Request::new(RawMsg(Bytes::from_static(b"ping")));
+        req.set_timeout(caller);
+        let t0 = tokio::time::Instant::now();
+        let r: Result<(), (Code, String)> = if streaming {
+            match client.server_stream(req).await {
+                Ok(_) => Ok(()),
+                Err(e) => Err((e.code(), e.message().to_string())),
+            }
+        } else {
+            client.unary(req).await.map(|_| ()).map_err(|e| (e.code(), e.message().to_string()))
+        };
+        Ok((r, t0.elapsed()))
+    });
+    match res {
+        None => v9(sim, "call-hangs", format!("silent peer: the call did not complete within 10 virtual hours although the caller's timeout is {caller:?} (endpoint timeout {endpoint:?})")),
+        Some(Err(e)) => v9(sim, "setup-failed", e),
+        Some(Ok((r, elapsed))) => {
+            sim.probe("deadline-against-silent-peer");
+            match r {
+                Err((Code::Cancelled, m)) if m == "Timeout expired" => {
+                    if elapsed + Duration::from_millis(1) < d {
+                        v9(sim, "cut-off-before-deadline", format!("silent peer: D={d:?}, cut off after {elapsed:?}"));
+                    } else if elapsed > d + G {
+                        v9(sim, "cut-off-late", format!("silent peer: D={d:?} (caller {caller:?}, endpoint {endpoint:?}), cut off after {elapsed:?}"));
+                    }
+                }
+                other => v9(sim, "deadline-not-enforced", format!("silent peer: D={d:?} (caller {caller:?}, endpoint {endpoint:?}): outcome {other:?} after {elapsed:?}")),
+            }
+        }
+    }
+}
